@@ -23,6 +23,12 @@ def tol_of(*arrs, rel=1e-10):
     return rel * s * s + 1e-13
 
 
+def stol_of(x, y):
+    hh = np.diff(x)
+    ratio = float(np.max(np.maximum(hh[1:] / hh[:-1], hh[:-1] / hh[1:]))) if len(x) >= 3 else 1.0
+    return 1e-9 * max(1.0, float(np.ptp(x))) * max(1.0, float(np.max(np.abs(y)))) * (1.0 + ratio) ** 2
+
+
 def helper_level(rep, rng, quick):
     from FDApy.misc.utils import _integrate, _integration_weights, _inner_product
     run = C.CoqRun("C08", IMPORTS)
@@ -45,6 +51,20 @@ def helper_level(rep, rng, quick):
         v = _integrate(y, x, method="trapz")
         t = run.add(f"qclose {C.qlit(tol_of(x, y))} (trapz opsQ {C.qlist(x)} {C.qlist(y)}) {C.qlit(v)}")
         todo.append((t, "integrate-1d", kind, {"x": x, "y": y, "impl": v}))
+        if m >= 4:
+            # a second grid with the same number of points and the same end points (other interior points), right afterwards
+            x2 = x.copy()
+            x2[1:-1] = x[1:-1] + np.round(0.375 * np.diff(x)[1:] * 1024) / 1024
+            w2 = _integration_weights(x2, method="trapz")
+            t = run.add(f"vclose {C.qlit(wtol)} (trapz_w opsQ {C.qlist(x2)}) {C.qlist(w2)}")
+            todo.append((t, "weights", kind + "/second-grid-same-ends", {"x": x2, "impl": w2}))
+            for meth in ("trapz", "simpson"):
+                v2 = _integrate(y, x2, method=meth)
+                model = "trapz" if meth == "trapz" else "simpson"
+                t = run.add(f"qclose {C.qlit(stol_of(x2, y) if meth == 'simpson' else tol_of(x2, y))} "
+                            f"({model} opsQ {C.qlist(x2)} {C.qlist(y)}) {C.qlit(v2)}")
+                todo.append((t, f"{'integrate' if meth == 'trapz' else 'simpson'}-1d", kind + "/second-grid-same-ends",
+                             {"x": x2, "y": y, "impl": v2}))
         v = _inner_product(y, g, x, method="trapz")
         t = run.add(f"qclose {C.qlit(tol_of(x, y * g))} (inner opsQ {C.qlist(x)} {C.qlist(y)} {C.qlist(g)}) {C.qlit(v)}")
         todo.append((t, "inner-1d", kind, {"x": x, "f": y, "g": g, "impl": v}))
